@@ -112,6 +112,9 @@ type callRec struct {
 	Err         string `json:"err,omitempty"`
 	PayloadOK   bool   `json:"-"`
 	Launched    bool   `json:"launched"`
+	// ParkedSeq: stamp of the first quiescent snapshot that saw this caller parked in keysFromRemote (waiting for a
+	// download - its own or one it joined)
+	ParkedSeq int64 `json:"parked_waiting_for_a_download_at,omitempty"`
 
 	gid       int64
 	pi        *mon.PanicInfo
@@ -121,6 +124,7 @@ type callRec struct {
 	returned  atomic.Bool
 	parked    bool // at the last settle
 	wasParked bool // parked at the last settle, but a gate was opened since
+	topKFR    bool // at the last dump: blocked with keysFromRemote on top of its stack
 }
 
 type phaseRec struct {
@@ -261,7 +265,7 @@ func (rx *roundExec) settle(ph *phaseRec) settleResult {
 		parkedKFR := 0
 		callerAtGate := 0
 		for _, c := range ph.Calls {
-			c.parked, c.wasParked = false, false
+			c.parked, c.wasParked, c.topKFR = false, false, false
 			if !c.Launched || c.returned.Load() {
 				continue
 			}
@@ -271,6 +275,7 @@ func (rx *roundExec) settle(ph *phaseRec) settleResult {
 				res.quiescent = false // finished between flag read and dump; will be seen as returned next time
 			case g.blocked() && g.topKFR && c.CancelSeq == 0:
 				c.parked = true
+				c.topKFR = true
 				parkedKFR++
 			case g.blocked() && g.atGate && c.CancelSeq == 0:
 				c.parked = true // a library that downloads on the caller's own goroutine
@@ -284,6 +289,11 @@ func (rx *roundExec) settle(ph *phaseRec) settleResult {
 			res.quiescent = false
 		}
 		if res.quiescent {
+			for _, c := range ph.Calls {
+				if c.parked && c.topKFR && c.ParkedSeq == 0 {
+					c.ParkedSeq = snap.seq
+				}
+			}
 			if parkedKFR > 0 && res.spawned == 0 && callerAtGate == 0 {
 				res.deadlock = true
 			}
